@@ -365,6 +365,9 @@ type AttemptPlan struct {
 	CancelAtTx   int    // cancel the context from inside the handler of transaction index k (before it returns); -1
 	CancelAtPkt  int    // cancel when packet index i has been sent; -1
 	StallAfter   int    // the master falls silent (connection open) after packet index i; -1: it sends everything
+	Detain       bool   // scripted attempt whose script goes on in the next attempt: goroutines still parked at a hook point when the
+	// script of this attempt ends (the reader, if it has not left yet) stay parked, and the next attempt's script decides when they go on
+	Log          *Log   // non-nil: this attempt is served from this log instead of the scenario's (two-attempt scripts)
 	HandlerBlock int    // tx index whose handler blocks until released by the stop cause; -1
 	HandlerBlockMs int  // if > 0 the blocked handler resumes by itself after this many milliseconds
 	ReleaseDelayMs int  // the blocked handler keeps running this long AFTER the stop cause (cancel) before it returns
@@ -387,7 +390,7 @@ func defaultAttempt() AttemptPlan {
 
 func (a AttemptPlan) J() M {
 	m := M{"pacing": a.Pacing, "end": a.End, "connfault": orNone(a.ConnFault), "handlerErrAt": a.HandlerErrAt,
-		"mapperFault": orNone(a.MapperFault), "handlerErrKind": orNone(a.HandlerErrKind), "cancelAtTx": a.CancelAtTx, "cancelAtPkt": a.CancelAtPkt, "stallAfter": a.StallAfter,
+		"mapperFault": orNone(a.MapperFault), "handlerErrKind": orNone(a.HandlerErrKind), "cancelAtTx": a.CancelAtTx, "cancelAtPkt": a.CancelAtPkt, "stallAfter": a.StallAfter, "detain": a.Detain,
 		"handlerBlock": a.HandlerBlock, "releaseDelayMs": a.ReleaseDelayMs, "scribble": a.Scribble, "dead": a.Dead, "cancelAfterReturn": a.CancelAfterReturn,
 		"logDelayMs": a.LogDelayMs, "skipError": a.SkipError, "hookTrace": a.HookTrace, "hookFuzz": a.HookFuzz != 0, "scripted": a.Script != nil, "leakFirst": a.LeakFirst, "mapperCancels": a.MapperCancels, "deadline": a.Deadline, "script": scriptJ(a.Script)}
 	if a.Fault != nil {
@@ -556,6 +559,7 @@ type runState struct {
 	abandoned bool // a Stream call never returned: the streamer object cannot be used any more
 	// where the harness believes the streamer stands (only used to describe injected faults; set from the scenario start)
 	streamerPosGuess Pos
+	carry            *Sched // scheduler handed from a scripted attempt to the next one (AttemptPlan.Detain)
 }
 
 // scriptJ renders a script as a list of "Action" / "Action:parameter" strings.
@@ -619,6 +623,10 @@ func injectPackets(log *Log, pkts [][]byte, inj *Inject, at uint32) [][]byte {
 func (rs *runState) runAttempt(att int, a AttemptPlan, dsnOverride string) {
 	rec := rs.rec
 	sc := rs.sc
+	alog := sc.Log
+	if a.Log != nil {
+		alog = a.Log
+	}
 	rs.mapper.mu.Lock()
 	rs.mapper.fault = a.MapperFault
 	rs.mapper.att = att
@@ -659,7 +667,7 @@ func (rs *runState) runAttempt(att int, a AttemptPlan, dsnOverride string) {
 
 	plan := &ServePlan{ConnFault: a.ConnFault, Fault: a.Fault, Lockstep: a.Pacing == "lockstep", End: a.End}
 	plan.Resolve = func(c Cmd) ([][]byte, bool) {
-		evs, ok := sc.Log.Served(Pos{string(c.File), c.Off})
+		evs, ok := alog.Served(Pos{string(c.File), c.Off})
 		if !ok {
 			return nil, false
 		}
@@ -667,7 +675,7 @@ func (rs *runState) runAttempt(att int, a AttemptPlan, dsnOverride string) {
 		for _, e := range evs {
 			pk = append(pk, e.Bytes)
 		}
-		pk = injectPackets(sc.Log, pk, a.Inject, c.Off)
+		pk = injectPackets(alog, pk, a.Inject, c.Off)
 		if a.StallAfter >= 0 && a.StallAfter+1 < len(pk) {
 			pk = pk[:a.StallAfter+1] // the master stalls here: nothing more arrives, the connection stays open
 		}
@@ -709,9 +717,18 @@ func (rs *runState) runAttempt(att int, a AttemptPlan, dsnOverride string) {
 	var sched *Sched
 	scriptDone := make(chan struct{})
 	if a.Script != nil {
-		sched = newSched()
+		sched = rs.carry
+		rs.carry = nil
+		if sched == nil {
+			sched = newSched()
+		}
 	} else {
 		close(scriptDone)
+		if rs.carry != nil {
+			rs.carry.freeRun()
+			setSched(nil)
+			rs.carry = nil
+		}
 	}
 	callerG := goid()
 	var hmu sync.Mutex
@@ -805,17 +822,17 @@ func (rs *runState) runAttempt(att int, a AttemptPlan, dsnOverride string) {
 	}
 
 	nbefore := -1
-	if a.Inject != nil && len(sc.Log.Files) > 0 {
+	if a.Inject != nil && len(alog.Files) > 0 {
 		cur := rs.streamerPosGuess
-		nbefore = nCommitsBefore(sc.Log, cur, a.Inject.At)
+		nbefore = nCommitsBefore(alog, cur, a.Inject.At)
 	}
 	if strings.HasPrefix(a.MapperFault, "mismatch:") || strings.HasPrefix(a.MapperFault, "err:") {
 		// committing units completely served before the first table map of the faulted table
 		name := a.MapperFault[strings.Index(a.MapperFault, ":")+1:]
-		evs, _ := sc.Log.Served(rs.streamerPosGuess)
+		evs, _ := alog.Served(rs.streamerPosGuess)
 		for i, ev := range evs {
 			if ev.K == "tablemap" && ev.Tbl.DB+"."+ev.Tbl.Name == name {
-				nbefore = nCommitsBefore(sc.Log, rs.streamerPosGuess, i)
+				nbefore = nCommitsBefore(alog, rs.streamerPosGuess, i)
 				break
 			}
 		}
@@ -835,6 +852,15 @@ func (rs *runState) runAttempt(att int, a AttemptPlan, dsnOverride string) {
 	defer setHooks(nil, 0, 0)
 	rec.Emit(M{"ev": "attempt", "att": att, "plan": a.J(), "nbefore": nbefore})
 	baseG := libraryGoroutines() // goroutines leaked by earlier attempts are not charged to this one
+	if sched != nil {
+		// ... but a reader the previous attempt's script left parked is: this attempt's script lets it go on, and it must leave
+		sched.mu.Lock()
+		for _, g := range sched.readers {
+			delete(baseG, g)
+		}
+		sched.caller = 0
+		sched.mu.Unlock()
+	}
 	t0 := time.Now()
 	var err error
 	done := make(chan struct{})
@@ -863,6 +889,7 @@ func (rs *runState) runAttempt(att int, a AttemptPlan, dsnOverride string) {
 		})
 	}
 	errCalls := 0
+	detained := false
 	var errPending <-chan error
 	if sched != nil {
 		sr := &scriptRun{s: sched, steps: a.Script, done: done, cancel: doCancel, emitReturn: func() { <-done; emitReturn() },
@@ -884,8 +911,13 @@ func (rs *runState) runAttempt(att int, a AttemptPlan, dsnOverride string) {
 			}}
 		followed := sr.run()
 		errPending = sr.errPending
-		sched.freeRun()
-		setSched(nil)
+		detained = a.Detain && followed
+		if detained {
+			rs.carry = sched // whoever is parked stays parked: the next attempt's script goes on from here
+		} else {
+			sched.freeRun()
+			setSched(nil)
+		}
 		rec.Emit(M{"ev": "script", "att": att, "followed": followed, "steps": len(a.Script)})
 		close(scriptDone)
 	}
@@ -920,7 +952,7 @@ func (rs *runState) runAttempt(att int, a AttemptPlan, dsnOverride string) {
 			} else {
 				// everything was sent: give the parser time to consume it (until the handler has been called once per
 				// committing unit served, bounded), then cancel
-				want := nCommitsBefore(sc.Log, rs.streamerPosGuess, 1<<30)
+				want := nCommitsBefore(alog, rs.streamerPosGuess, 1<<30)
 				limit := time.Now().Add(waitBound)
 				for time.Now().Before(limit) {
 					hmu.Lock()
@@ -978,8 +1010,8 @@ func (rs *runState) runAttempt(att int, a AttemptPlan, dsnOverride string) {
 		doCancel("after-return")
 	}
 
-	leakDone := false
-	if a.LeakFirst && errPending == nil && errCalls == 0 {
+	leakDone := detained // a parked reader is the harness's doing: it is charged to the next attempt, which lets it go on
+	if a.LeakFirst && errPending == nil && errCalls == 0 && !detained {
 		// no library goroutine may remain after Stream returned, whether or not the caller goes on to call Error()
 		left := waitNoNewLibraryGoroutines(baseG, leakBound())
 		if left == nil {
@@ -999,7 +1031,7 @@ func (rs *runState) runAttempt(att int, a AttemptPlan, dsnOverride string) {
 		}
 	}
 	// Error(): must return, whatever happened.
-	for call := errCalls + 1; call <= 2 && !a.SkipError; call++ {
+	for call := errCalls + 1; call <= 2 && !a.SkipError && !detained; call++ {
 		ech := make(chan error, 1)
 		go func() { ech <- rs.streamer.Error() }()
 		select {
@@ -1094,12 +1126,18 @@ func RunStreamScenario(rec *Recorder, sc *StreamScenario) {
 	for i, a := range sc.Attempts {
 		if p, ok := sc.SetPosBefore[i]; ok {
 			st.SetBinlogPosition(gobinlog.Position{Filename: p.File, Offset: int64(p.Off)})
+			rs.streamerPosGuess = p
 			rec.Emit(M{"ev": "setpos", "att": i, "pos": M{"file": B(p.File), "off": u32s(p.Off)}})
 		}
 		rs.runAttempt(i, a, "")
 		if rs.abandoned {
 			break
 		}
+	}
+	if rs.carry != nil {
+		rs.carry.freeRun()
+		setSched(nil)
+		rs.carry = nil
 	}
 	// re-read every delivered transaction after all stream activity ended (C08)
 	for k, t := range rs.kept {
